@@ -41,12 +41,15 @@ def mc_configs(tier):
             ("E2-selectors", consts({"delta", "sexp"}, 3, (4,), smodes=("nearest",), tol2s=(1,), cobs=("val",),
                                     sobs=("f",), E0=2)),
         ]
+    NOPLUS = ALL - {"dplus"}
     return [
-        ("trains-T7", consts(ALL, 8, (0, 4, 8, 12), tol2s=(1,), cobs=("val",), sobs=("f",))),
-        ("offgrid-delay-T6", consts(ALL, 7, (6, 10), tol2s=(3,), cobs=("none",), sobs=("t",))),
-        ("settings-T4", consts(ALL, 5, (0, 8, 6, 12))),
-        ("E2-selectors", consts(ALL, 4, (8,), tol2s=(1, 3), cobs=("val", "none"), sobs=("f", "none"), E0=2)),
-        ("dplus-inj-T5", consts({"dplus"}, 6, (8,), js=(0, 1, 2), tol2s=(1,), cobs=("val",), sobs=("t",))),
+        ("trains-T7", consts(NOPLUS, 8, (0, 4, 8, 12), tol2s=(1,), cobs=("val",), sobs=("f",))),
+        ("trains-dplus-T5", consts({"dplus"}, 6, (0, 4, 8, 12), tol2s=(1,), cobs=("val",), sobs=("f",))),
+        ("offgrid-delay-T5", consts(ALL, 6, (6, 10), tol2s=(3,), cobs=("none",), sobs=("t",))),
+        ("settings-T3", consts(ALL, 4, (0, 8, 6, 12))),
+        ("E2-selectors", consts(NOPLUS, 3, (8,), smodes=("nearest",), tol2s=(1,), cobs=("val", "none"),
+                                sobs=("f",), E0=2)),
+        ("dplus-inj-T4", consts({"dplus"}, 5, (8,), js=(0, 1, 2), tol2s=(1,), cobs=("val",), sobs=("t",))),
     ]
 
 
@@ -148,7 +151,7 @@ def random_traces(rng, count, steps):
         if vals[used] != c:
             continue
         cs = {k: (int(round(v * (1 << CK))) if k in (used, "J", "OB") else 0) for k, v in vals.items()}
-        tol = rng.choice([0, 1])
+        tol = rng.choice([0, 1]) if D == 4 else 0      # a tolerance must stay below half a step (2*tol+1 < D)
         dly = rng.choice([0, D, 2 * D, 3 * D, D + D // 2, 2 * D + D // 2])
         cf = {"sk": sk, "dtk": D, "dly": dly, "smode": rng.choice(["previous", "nearest"]), "tol2": 2 * tol + 1,
               "cob": rng.choice(["none", "val"]), "sob": rng.choice(["none", "t", "f"])}
@@ -260,9 +263,10 @@ def run(tier: str, seed: int) -> int:
     if tier == "quick":
         gens = [("gen-T3", consts(ALL, 3, (0, 8, 6)), 12, 48)]
     else:
-        gens = [("gen-T4", consts(ALL, 5, (0, 4, 8, 6)), None, None),
-                ("gen-T6", consts(ALL, 7, (8,), tol2s=(1,), cobs=("val",), sobs=("t",)), 400, None)]
-    pool = ThreadPoolExecutor(max_workers=2)
+        gens = [("gen-T3", consts(ALL - {"dplus"}, 3, (0, 4, 8, 6)), 40, None),
+                ("gen-dplus-T2", consts({"dplus"}, 2, (0, 8, 6)), 40, None),
+                ("gen-T5", consts(ALL - {"dplus"}, 5, (8,), tol2s=(1,), cobs=("val",), sobs=("t",)), 130, None)]
+    pool = ThreadPoolExecutor(max_workers=3)
     futs = [pool.submit(symcommon.gen_graph, chk, "SynapseHistMC", it[0], it[1]) for it in gens]
     # ---- T
     symcommon.run_mc(chk, "SynapseHistMC", mc_configs(tier), INVS)
@@ -339,3 +343,16 @@ def run(tier: str, seed: int) -> int:
         chk.extra["canary_trace_rejected_at_line"] = line
         chk.note(f"canary: corrupted trace rejected at line {line}")
     return chk.finish()
+
+
+def replay(path: str) -> int:
+    import json
+    doc = json.loads(open(path).read())
+    sig, rep = doc["signature"], doc["replay"]
+    if sig.get("site", "").startswith("graph-replay"):
+        P = SynParams(**rep["params"])
+        hdr = {"cf": rep["cf"], "params": P, "shape": tuple(rep["layout"][1]), "batch": rep["layout"][0],
+               "inplace": rep["inplace"], "boolin": rep["boolin"]}
+        return symcommon.rerun_graph_record(PID, doc, lambda: SynImpl(hdr), SynMatcher(P))
+    print(f"[{PID}] replay: re-run ./check {PID} (trace / specification-level record: {sig})")
+    return 1
